@@ -441,3 +441,82 @@ def native_C10(tier, seed):
 
 def native_C17(tier, seed):
     return _collect(tier, seed, counting_failures, "instrumented user callables over full runs")
+
+
+def native_C05(tier, seed):
+    """the real log_prob of the SMC / MCMC sampler classes against an independent IEEE recomputation of the tempered target"""
+    xnp, Flow, MiniPCNSMC, SMCSamples, Samples = _mods()
+    from aspire.samplers.mcmc import MCMCSampler
+    from aspire.transforms import CompositeTransform
+    rng = np.random.default_rng(seed)
+    fails, cases = [], 0
+
+    class BoxFlow(Flow):
+        xp = xnp
+
+        def __init__(self, dims, device=None, data_transform=None):
+            super().__init__(dims, device, data_transform)
+
+        def log_prob(self, x, xp=xnp):
+            x = np.asarray(x)
+            inside = (np.abs(x) < 5).all(-1)
+            with np.errstate(divide="ignore"):
+                return np.where(inside, -0.5 * (x ** 2).sum(-1) - x.shape[-1] * math.log(2.4), -np.inf)
+
+        def sample_and_log_prob(self, n, xp=xnp):
+            x = rng.uniform(-4.9, 4.9, size=(n, self.dims))
+            return x, self.log_prob(x)
+
+    def pi(x, box):
+        return np.where((np.abs(x) <= box).all(-1), -x.shape[-1] * math.log(2 * box), -np.inf)
+
+    def L(x, mode):
+        v = -0.5 * ((x - 1.0) ** 2).sum(-1)
+        if mode == "nan":
+            v = np.where(x[:, 0] > 4.0, np.nan, v)
+        if mode == "posinf":
+            v = np.where(x[:, 0] < -4.0, np.inf, v)
+        return v
+
+    for box in (3.0, 8.0):
+        for mode in ("finite", "nan", "posinf"):
+            for prec in ("identity", "logit", "affine"):
+                flow = BoxFlow(2)
+                lp = lambda s, _b=box: pi(np.asarray(s.x), _b)  # noqa: E731
+                ll = lambda s, _m=mode: L(np.asarray(s.x), _m)  # noqa: E731
+                tr = None
+                if prec == "logit":
+                    tr = CompositeTransform(parameters=["a", "b"], prior_bounds={"a": [-9, 9], "b": [-9, 9]}, bounded_to_unbounded=True, bounded_transform="logit",
+                                            affine_transform=False, xp=xnp)
+                elif prec == "affine":
+                    tr = CompositeTransform(parameters=["a", "b"], prior_bounds=None, bounded_to_unbounded=False, affine_transform=True, xp=xnp)
+                for cls, betas in ((MiniPCNSMC, (0.05, 0.5, 1.0)), (MCMCSampler, (None,))):
+                    kw = dict(rng=np.random.default_rng(1)) if cls is MiniPCNSMC else {}
+                    s = cls(ll, lp, 2, flow, xnp, parameters=["a", "b"], preconditioning_transform=tr, **kw)
+                    X = rng.uniform(-8.5, 8.5, size=(60, 2))
+                    z = np.asarray(s.preconditioning_transform.fit(X.copy()))
+                    for beta in betas:
+                        cases += 1
+                        inp = {"class": cls.__name__, "box": box, "likelihood": mode, "preconditioning": prec, "beta": beta, "seed": seed}
+                        try:
+                            got = np.asarray(s.log_prob(z.copy(), beta) if beta is not None else s.log_prob(z.copy()), dtype=float)
+                        except Exception as e:  # noqa: BLE001
+                            fails.append({"id": f"C05-raise-{cls.__name__}-{box}-{mode}-{prec}-{beta}", "obligation": "C05", "what": f"{type(e).__name__}: {e}", "input": inp})
+                            continue
+                        x, J = s.preconditioning_transform.inverse(z.copy())
+                        x, J = np.asarray(x, dtype=float), np.asarray(J, dtype=float)
+                        with np.errstate(all="ignore"):
+                            if beta is None:
+                                want = L(x, mode) + pi(x, box) + J
+                            else:
+                                want = (1 - beta) * flow.log_prob(x) + beta * (L(x, mode) + pi(x, box)) + J
+                                want = np.where(np.isnan(want), -np.inf, want)
+                        same = np.isclose(got, want, rtol=1e-12, atol=1e-12, equal_nan=True) | ((got == want))
+                        if not same.all():
+                            k = int(np.argmin(same))
+                            fails.append({"id": f"C05-target-{cls.__name__}-{box}-{mode}-{prec}-{beta}", "obligation": "C05:result[i] ==", "what": f"log-density {got[k]} but the tempered target is {want[k]} at x={x[k].tolist()}", "input": inp})
+                        zero_prior = ~np.isfinite(pi(x, box))
+                        if beta is not None and (np.isfinite(got[zero_prior]).any() or np.isnan(got).any()):
+                            fails.append({"id": f"C05-zero-prior-{cls.__name__}-{box}-{mode}-{prec}-{beta}", "obligation": "C05:zero prior", "what": "finite or NaN log-density at a zero-prior point", "input": inp})
+    return {"what": "real MiniPCNSMC.log_prob / MCMCSampler.log_prob against an independent IEEE recomputation: compact-support proposal (log q = -inf), narrow and wide box priors, likelihoods returning NaN / +inf, identity / logit / affine preconditioning, beta in {0.05, 0.5, 1}",
+            "bound": f"{cases} configurations x 60 points", "cases": cases, "failures": fails}
